@@ -2,7 +2,7 @@
    Gen/IgnoreTable.v is regenerated on every run by EXECUTING set_notebook_diff_targets for all 64 subsets
    and process_exclusive_ignorables for all 3^6 flag assignments in /repo's nbdime. *)
 From Coq Require Import List NArith Bool.
-From NB Require Import Base.Res Base.Json Diff.DiffFormat Diff.GenericDiff Gen.IgnoreTable Sys.Ignore Sys.IgnoreProofs.
+From NB Require Import Base.Res Base.Json Diff.DiffFormat Diff.Patch Diff.GenericDiff Diff.NbGood Gen.IgnoreTable Sys.Ignore Sys.IgnoreProofs Sys.IgnoreSem.
 Import ListNotations.
 
 (* for every subset of the six categories, the installed differ table is exactly the one the categories
@@ -39,3 +39,17 @@ Theorem ignored_keys_silent : forall O cfg n inner ks path a b d,
   forall e k, In e d -> dkey e = KS k -> existsb (str_eqb k) ks = false.
 Proof. exact run_ignore_keys. Qed.
 Print Assumptions ignored_keys_silent.
+
+(* what a key filter MEANS for the patched document ("applying it still reproduces the target in every non-ignored part"):
+   around any differ whose diff is good (patches the base into the target and is well-formed for it -- what the C01/C11 theorems
+   give for the notebook differ), the filtered diff still applies, and the result equals the TARGET at every key that is not
+   ignored and keeps the BASE's value (or absence) at every ignored key.  For all objects, key lists and inner differs. *)
+Theorem ignored_keys_keep_base_rest_is_target : forall O cfg n inner ks path ka kb d0,
+  wfj (JObj ka) = true ->
+  run O cfg n inner path (JObj ka) (JObj kb) = Ok d0 -> Good (JObj ka) (JObj kb) d0 ->
+  exists d, run O cfg (S n) (DfIgnoreKeys inner ks) path (JObj ka) (JObj kb) = Ok d
+    /\ forall m, depth (JObj ka) < m ->
+       exists r', patch m (JObj ka) d = Ok (JObj r') /\ keys_sorted r' = true
+                  /\ forall k, obj_get k r' = if existsb (str_eqb k) ks then obj_get k ka else obj_get k kb.
+Proof. exact run_ignore_keys_semantics. Qed.
+Print Assumptions ignored_keys_keep_base_rest_is_target.
